@@ -1569,6 +1569,30 @@ void sm2_z256_point_add_affine(SM2_Z256_POINT *r, const SM2_Z256_POINT *a, const
 }
 #endif
 
+#if defined(ENABLE_SM2_AMD64)
+// src/sm2_z256_amd64.S, the mixed-addition formulas without the a == b case
+void sm2_z256_point_add_affine_asm(SM2_Z256_POINT *r, const SM2_Z256_POINT *a, const SM2_Z256_AFFINE_POINT *b);
+
+void sm2_z256_point_add_affine(SM2_Z256_POINT *r, const SM2_Z256_POINT *a, const SM2_Z256_AFFINE_POINT *b)
+{
+	uint64_t a_infty = sm2_z256_is_zero(a->Z);
+	uint64_t b_infty = sm2_z256_is_zero(b->x) & sm2_z256_is_zero(b->y);
+
+	sm2_z256_point_add_affine_asm(r, a, b);
+
+	/*
+	 * For two finite points Z3 = H*Z1, X3 = R^2 - H^3 - 2*U1*H^2, Y3 = R*(U1*H^2 - X3) - S1*H^3:
+	 * the result is (0,0,0) exactly when H == 0 and R == 0, i.e. a == b. Double instead.
+	 */
+	if (!a_infty && !b_infty
+		&& sm2_z256_is_zero(r->X) && sm2_z256_is_zero(r->Y) && sm2_z256_is_zero(r->Z)) {
+		SM2_Z256_POINT T;
+		sm2_z256_point_copy_affine(&T, b);
+		sm2_z256_point_dbl(r, &T);
+	}
+}
+#endif
+
 void sm2_z256_point_sub_affine(SM2_Z256_POINT *R,
 	const SM2_Z256_POINT *A, const SM2_Z256_AFFINE_POINT *B)
 {
